@@ -247,7 +247,7 @@ func TestCheck(t *testing.T) {
 		})
 	}
 	// (c) PRNG histories
-	n := r.Pick(120, 6000)
+	n := r.Pick(400, 6000)
 	for i := 0; i < n; i++ {
 		i := i
 		r.Bubble(fmt.Sprintf("hist/%05d", i), func(c *mon.Case) {
